@@ -159,6 +159,9 @@ func vc15StalePoint() *Point {
 		Time:        vc15Time(987654321),
 		Drop:        verifnd.Bool(),
 	}
+	if verifnd.Param("SYMTIME", 0) == 1 { // any stale instant (costly in the solver)
+		st.Time = vc15Time(verifnd.Int64())
+	}
 	switch verifnd.Choice(3) {
 	case 1:
 		st.Meta = map[string]*TFMeta{}
